@@ -345,7 +345,11 @@ func runC42(c *core.Ctx) {
 
 	for i := 0; i < nValues; i++ {
 		t := newTape(c.Rng)
-		v := build(t)
+		v, finite := tryBuild(build, t)
+		if !finite {
+			c.Inc("no_finite_value_skipped")
+			continue
+		}
 		choices := t.choices()
 		c.Eval(1)
 		c.Inc("values")
